@@ -110,6 +110,9 @@ pub struct Flags {
     pub zero_mode: ZeroMode,
     /// classify-only: promote the way the linked bignum crate does (known rounding defects)
     pub conv: ConvMode,
+    /// model only what the machine is known to do where the oracle otherwise also accepts an
+    /// alternative reading (used by C03's classifier, which needs a single value per node)
+    pub no_alternatives: bool,
 }
 
 fn promote_fl(v: &V, fl: &Flags) -> Option<f64> {
@@ -244,7 +247,32 @@ fn eval_node(e: &A, fl: &mut Flags) -> Result<Acc, String> {
             }
             eval_bin(op, &x, &y, fl)
         }
+        // the three evaluable constants (not generated by C02; used by C03's classifier)
+        A::Op(op, args) if args.is_empty() => match op.as_str() {
+            "pi" => Ok(Acc::val(V::F(std::f64::consts::PI))),
+            "e" => Ok(Acc::val(V::F(std::f64::consts::E))),
+            "epsilon" => Ok(Acc::val(V::F(f64::EPSILON))),
+            _ => Err("unsupported-node".into()),
+        },
         _ => Err("unsupported-node".into()),
+    }
+}
+
+/// integer-only operators, delegated to C01's exact model (not generated by C02; used by C03's classifier)
+fn int_bin(op: &str, x: &V, y: &V) -> Result<Acc, String> {
+    use crate::props::c01::{self, E};
+    let (V::Int(a), V::Int(b)) = (x, y) else { return Err("type-error-out-of-scope".into()) };
+    let e = E::Bin(op.to_string(), Box::new(E::Lit(a.clone())), Box::new(E::Lit(b.clone())));
+    let mut fl = c01::Flags { crossed: false };
+    match c01::eval(&e, &mut fl) {
+        Ok(v) => Ok(Acc::val(V::Int(v))),
+        Err(errs) => {
+            if errs.contains(&c01::Err1::TooBig) {
+                Err("too-big".into())
+            } else {
+                Ok(Acc::err(errs.iter().map(|e| e.formal()).collect()))
+            }
+        }
     }
 }
 
@@ -346,7 +374,7 @@ pub fn eval_un(op: &str, x: &V, fl: &mut Flags) -> Result<Acc, String> {
             let mut errs = vec![];
             let p = prom(x, &mut errs, fl);
             let mut acc = if errs.is_empty() { Acc::val(V::F(if op == "float_integer_part" { p.trunc() } else { p - p.trunc() })) } else { Acc::err(errs) };
-            if x.is_exact() {
+            if x.is_exact() && !fl.no_alternatives {
                 // ISO gives these a float-only signature; promoting an integer is an accepted extension
                 acc.add_err(e_type("float", x));
             }
@@ -389,6 +417,10 @@ pub fn eval_un(op: &str, x: &V, fl: &mut Flags) -> Result<Acc, String> {
                 }
             }
         }
+        "\\" => match x {
+            V::Int(i) => Acc::val(V::Int(-i.clone() - IBig::ONE)),
+            _ => return Err("type-error-out-of-scope".into()),
+        },
         _ => return Err(format!("unsupported-unary:{op}")),
     };
     Ok(r)
@@ -542,6 +574,20 @@ pub fn eval_bin(op: &str, x: &V, y: &V, fl: &mut Flags) -> Result<Acc, String> {
                         a
                     }
                 }
+            }
+        }
+        "//" | "div" | "mod" | "rem" | "gcd" | ">>" | "<<" | "/\\" | "\\/" | "xor" => return int_bin(op, x, y),
+        "rdiv" => {
+            // exact quotient; a float operand stands for its exact value
+            let (a, b) = exact_frac(x);
+            let (c, d) = exact_frac(y);
+            if c == IBig::ZERO {
+                Acc::err(vec![e_zero_div()])
+            } else {
+                if bit_len(&a) + bit_len(&b) + bit_len(&c) + bit_len(&d) > MAX_EXACT_BITS {
+                    return Err("exact-too-big".into());
+                }
+                Acc::val(V::rat(&a * &d, &b * &c)).lenient()
             }
         }
         _ => return Err(format!("unsupported-binary:{op}")),
